@@ -275,6 +275,15 @@ def pickler_tie(ctx, objs, shared=False):
             if p >= 4 and nfr <= 1 and len(real) < 60000:
                 lines.append(f"{cmd} 1 {p} {t}")
                 meta.append((o, p, real, real))
+            # the pure-Python pickler (it writes the last batch of a list / dict differently, and at protocol 0 memoizes a copy of
+            # an escaped string), and - for the memo-reading model - pickletools.optimize of the C pickler's output
+            realp = pyside.pickle_py(o, p)
+            lines.append(f"{cmd} P {p} {t}")
+            meta.append((o, p, strip_frames(realp), realp))
+            if shared:
+                realo = pickletools.optimize(real)
+                lines.append(f"{cmd} O {p} {t}")
+                meta.append((o, p, strip_frames(realo), realo))
     ans = C.run_sharded(C.run_lean, lines)
     dec_lines, dec_meta = [], []
     for line, (o, p, want, real), a in zip(lines, meta, ans):
@@ -295,8 +304,9 @@ def pickler_tie(ctx, objs, shared=False):
             ctx.disagree(line[:3000], "pickle.dumps: " + hexs(want[:1000]), "model: " + hx[:2000], "pickler model")
             continue
         ctx.exact_agree += 1
-        ctx.count(f"{tag}:same-bytes:proto{p}")
-        if line.split(" ")[1] == "1":
+        variant = {"0": "C", "1": "C-framed", "P": "py", "O": "optimize"}[line.split(" ")[1]]
+        ctx.count(f"{tag}:same-bytes:{variant}:proto{p}")
+        if variant == "C-framed":
             continue
         for pd in (False, True):
             covered = flags[int(pd)] == "1" and (p >= 1 or not _has_float(o))
@@ -381,12 +391,18 @@ class C02:
                   "keys \"0\"..\"n-1\" and under each index the pickler may fetch again the value standing for what was memoized "
                   "there (MemoInv.put, runs_get) - and REDUCE of the interpreted calls is evaluated (saveBytesS_ok, "
                   "saveBytearrayS_ok). "
+                  "All of it holds for the three picklers the property names: the theorems are stated for every value of two parameters "
+                  "of the model - py (the pure-Python pickle._Pickler: it writes a last batch of one item with APPEND / SETITEM and no "
+                  "empty batch, pyBatchLoop_groups; at protocol 0 CPython 3.11's version memoizes a COPY of a string it had to escape, so "
+                  "a repeated such string is written again, strCopied) and mz (which objects are memoized at all: every one for the "
+                  "picklers, only those fetched again for pickletools.optimize, which also renumbers - the model's running index does) - "
+                  "and each of the three is compared byte for byte with the real one. "
                   "Per-form lemmas as before: one memo key space for all PUT / GET widths and MEMOIZE (C02_memo_keys), every LONG1 "
                   "width and counted payload (C19_LONG1, C19_counted), the bytes()/bytearray() and _codecs.encode / "
                   "bytearray(bytes) forms CPython emits below protocol 3/5 (C02_bytes_forms). PARTIAL: objects in which a CONTAINER "
                   "occurs twice (the pickler then fetches a tuple, list or dict from the memo): the list half of the statement is FALSE "
                   "for the code (C02_K1_witness: `[x, x]` with a non-empty list x decodes to `[x, []]`) - known finding K1; lone "
-                  "surrogates at protocol 0 - known finding K4; the pure-Python pickler and pickletools.optimize variants. These are "
+                  "surrogates at protocol 0 - known finding K4. These are "
                   "decided per run by decoding what the three real CPython picklers emit for generated objects in all four modes and "
                   "comparing with the documented table, the decoder model agreeing with the implementation on every case.")
     level_note = ("trusted: Lean kernel + standard axioms; decoder model; the pickler model (tied byte for byte to pickle.dumps each run); "
